@@ -1244,6 +1244,43 @@ def eliminate_none_sentinel(fn: ast.FunctionDef) -> ast.FunctionDef:
                         changed = True
                         continue
                 i += 1
+    # early exit: `x = V if C else None; if x is None: return` is `if not C: return; x = V`
+    for parent in ast.walk(new):
+        for field in ('body', 'orelse'):
+            blk = getattr(parent, field, None)
+            if not (isinstance(blk, list) and blk and isinstance(blk[0], ast.stmt)):
+                continue
+            i = 0
+            while i + 1 < len(blk):
+                a, b = blk[i], blk[i + 1]
+                if isinstance(a, ast.Assign) and len(a.targets) == 1 and \
+                        isinstance(a.targets[0], ast.Name) and isinstance(a.value, ast.IfExp) and \
+                        isinstance(b, ast.If) and not b.orelse and b.body and \
+                        isinstance(b.body[-1], (ast.Return, ast.Continue, ast.Raise)):
+                    x = a.targets[0].id
+                    nf = isinstance(a.value.body, ast.Constant) and a.value.body.value is None
+                    nl = isinstance(a.value.orelse, ast.Constant) and \
+                        a.value.orelse.value is None
+                    v = a.value.orelse if nf else a.value.body
+                    t = b.test
+                    is_none = isinstance(t, ast.Compare) and len(t.ops) == 1 and \
+                        isinstance(t.ops[0], ast.Is) and isinstance(t.left, ast.Name) and \
+                        t.left.id == x and isinstance(t.comparators[0], ast.Constant) and \
+                        t.comparators[0].value is None
+                    if nf != nl and is_none and x not in _names(a.value) and \
+                            isinstance(v, (ast.Subscript, ast.Call, ast.Name, ast.Attribute)) \
+                            and not any(x in _names(s_) for s_ in b.body):
+                        cond = a.value.test if nf else ast.UnaryOp(ast.Not(), a.value.test)
+                        guard = ast.copy_location(ast.If(cond, b.body, []), b)
+                        setx = ast.copy_location(
+                            ast.Assign([ast.Name(x, ast.Store())], v), a)
+                        blk[i:i + 2] = [guard, setx]
+                        ast.fix_missing_locations(guard)
+                        ast.fix_missing_locations(setx)
+                        changed = True
+                        i += 2
+                        continue
+                i += 1
     # value position: `x = V if c else None` ... `E if x is None else x` (E a fresh constant
     # object: `Floor()`): x is `V if c else E` from the start, and the use is x
     def fresh(e) -> bool:
